@@ -321,7 +321,7 @@ def run_case(case, seg, viol, unsound, stats, sample):
         if table_bf:
             opt = min(table_bf.values())
             ub = (1 + case["gap"]) * opt
-            must = {k for k, o in table_bf.items() if o <= ub - BAND}
+            must = {k for k, o in table_bf.items() if o <= ub + 1e-6}  # aldy itself keeps up to ub + 1e-5
             may = {k for k, o in table_bf.items() if o <= ub + BAND + 1e-5}
             got = {k for k, _ in plain}
             if best is None:
@@ -364,8 +364,8 @@ def run_case(case, seg, viol, unsound, stats, sample):
         if best is None:
             continue
         ub = (1 + case["gap"]) * best
-        s1 = {k for k, o in plain if o <= ub - BAND}
-        s2 = {k for k, o in adv if o <= ub - BAND}
+        s1 = {k for k, o in plain if o <= ub + 1e-6}
+        s2 = {k for k, o in adv if o <= ub + 1e-6}
         if s1 != s2:
             viol.append({"clause": "set of reported combinations depends on which optimum the solver returns",
                          "detail": dict(detail0, only_plain=[list(x) for x in sorted(s1 - s2)[:1]],
